@@ -243,6 +243,24 @@ def run(tier, replay=None):
             run_.diverge("kind=%s class=%s reaction=%s" % (kind, line["cls"], line["reaction"]),
                          "input %s was answered: %s (reaction %s is not admitted for class %s)" % (json.dumps(shown)[:400], rc.summarise(obs), line["reaction"], line["cls"]),
                          {"cmd": ["rpcprobe"], "input": {"kind": kind, "set": "rich", "items": [it]}, "observed": obs})
+    # ---- a peer that sends a well-formed tools/call and drops its connection while the tool is still running (the server-side
+    # driver of C08): once the tool has returned nothing of that request is left - no goroutine per abandoned request
+    ab = [{"id": "abandon-%s-%s-%s" % (server, state, how), "server": server, "state": state, "how": how, "npeers": 2}
+          for server in ("streamable", "streamable-sse", "legacy") for state in ("in-handler",) for how in ("close", "reset")]
+    aout = common.run_harness_json(["c08srv"], {"scenarios": ab}, timeout=600, crash_ok=True)
+    if "_crash" in aout:
+        run_.diverge("abandoned-call process-crash", "the server process died: %s" % aout["_crash"][:1200], {"cmd": ["c08srv"], "input": {"scenarios": ab}})
+    else:
+        for sc, r in zip(ab, aout["results"]):
+            run_.evaluations += 1
+            if r.get("broken") or not r.get("reached"):
+                raise common.Broken("abandoned-call scenario %s: %s" % (sc["id"], r.get("broken") or "state not reached"))
+            run_.nontriv(["abandon", sc["id"]])
+            if r["lib_goroutines"] > 0 or r["handlers"] > 0:
+                run_.diverge("server=%s abandoned-call leaves=%s" % (sc["server"], "goroutines" if r["lib_goroutines"] > 0 else "handlers"),
+                             "two peers sent a tools/call and %s their connections while the tool was running: %d ms later the server still holds %+d library goroutines, %d handler invocations %s"
+                             % ("closed" if sc["how"] == "close" else "reset", r["release_ms"], r["lib_goroutines"], r["handlers"], r.get("sample", "")[:400]),
+                             {"cmd": ["c08srv"], "input": {"scenarios": [sc]}, "observed": r, "spec": "Survive (no goroutine per request) / PeerGone"})
     run_.rule = ("inputs = representatives of %d input classes (from Survive.tla) fed in model-enumerated orders to 6 server kinds, 3 batches each with a "
                  "health check; distinct non-trivial = distinct (kind, class, concrete input)" % len(classes))
     run_.assumptions = ["coverage-guided byte fuzzing is a different technique and is not used: 'all byte strings' is covered by classes",
